@@ -20,7 +20,7 @@ timeout 1500 cargo test --offline --test $tname >> $log 2>&1; demo_patched=$?
 echo "== with patch: existing suite" >> $log
 mv $demo /tmp/$tname.rs.hold
 timeout 1800 cargo test --workspace --no-fail-fast --offline >> $log 2>&1; suite=$?
-passed=$(grep -E '^test result: ok' $log | tail -7 | awk '{s+=$4} END {print s}')
+passed=$(grep -E '^test result: ok' $log | tail -9 | awk '{s+=$4} END {print s}')
 mv /tmp/$tname.rs.hold $demo
 echo "demo_clean_exit=$demo_clean demo_patched_exit=$demo_patched suite_exit=$suite suite_passed=$passed" | tee -a $log
 if [ $demo_clean -eq 0 ] && [ $demo_patched -ne 0 ] && [ $suite -eq 0 ]; then
